@@ -336,7 +336,7 @@ def perform(H, op):
         z = H.reader.zslices
         lo = None if (op["open"][0] and a[1] == 0) else z[a[1]]
         if a[2] == T.n_s:
-            hi = None if op["open"][1] else z[-1] + (z[1] - z[0])
+            hi = None if op["open"][1] else z[-1] + (z[-1] - z[-2])   # "last value plus the last step": what a caller writes for a float axis
         else:
             hi = z[a[2]]
         return H.reader.get_trace_by_coord(a[0], lo, hi)
